@@ -173,6 +173,34 @@ def pushBack [Inhabited α] (s : State α) (h : Nat) (v : α) : State α :=
   let H := s.hs h
   if H.size = 0 then faulted s else writeCell s H.d (H.size - 1) v
 
+/-- `if (i < size()) push_back((*this)[i])` (the guard is the harness's): the argument refers into the array itself.
+    `push_back` copies it before the storage can move: `const T tmp(a); reallocate(_size+1); back() = tmp;` -/
+def pushBackSelf [Inhabited α] (s : State α) (h i : Nat) : State α :=
+  let H := s.hs h
+  if i < H.size then
+    match readCells s H.d (i + 1) with                  -- `T tmp(_d[i])`
+    | none => faulted s
+    | some l =>
+      match l[i]? with
+      | some v => pushBack s h v
+      | none => faulted s
+  else s
+
+/-- `push_back` as it was before the repair, applied to its own cell `i`: `reallocate(_size+1); back() = a;`
+    where the reference `a` still designates cell `i` of the block the handle had *before* `reallocate`. -/
+def pushBackSelfOld [Inhabited α] (s : State α) (h i : Nat) : State α :=
+  let H := s.hs h
+  if i < H.size then
+    let s1 := reallocate s h (H.size + 1)
+    if s1.fault then s1 else
+    match readCells s1 H.d (i + 1) with                 -- read through the stale reference
+    | none => faulted s1                                -- the old block has been destroyed and released
+    | some l =>
+      match l[i]? with
+      | some v => writeCell s1 (s1.hs h).d ((s1.hs h).size - 1) v
+      | none => faulted s1
+  else s
+
 /-- `if (i < size()) write(i, v)` (the guard is the harness's) -/
 def write (s : State α) (h i : Nat) (v : α) : State α :=
   let H := s.hs h
@@ -217,6 +245,7 @@ inductive Op (α : Type) where
   | resize (h sz : Nat)
   | reserve (h sz : Nat)
   | pushBack (h : Nat) (v : α)
+  | pushBackSelf (h i : Nat)
   | write (h i : Nat) (v : α)
   | copy (h g : Nat)
   | logcopy (h g : Nat)
@@ -225,7 +254,7 @@ deriving Repr
 
 def Op.handles : Op α → List Nat
   | .build h _ _ => [h] | .noCopy h g => [h, g] | .withCopy h g => [h, g] | .destroy h => [h]
-  | .allocate h _ => [h] | .resize h _ => [h] | .reserve h _ => [h] | .pushBack h _ => [h] | .write h _ _ => [h]
+  | .allocate h _ => [h] | .resize h _ => [h] | .reserve h _ => [h] | .pushBack h _ => [h] | .pushBackSelf h _ => [h] | .write h _ _ => [h]
   | .copy h g => [h, g] | .logcopy h g => [h, g] | .assign h g => [h, g]
 
 /-- the operation proper -/
@@ -238,6 +267,7 @@ def stepCore [Inhabited α] (s : State α) : Op α → State α
   | .resize h sz => reallocate s h sz
   | .reserve h sz => reserve s h sz
   | .pushBack h v => pushBack s h v
+  | .pushBackSelf h i => pushBackSelf s h i
   | .write h i v => write s h i v
   | .copy h g => copy s h g
   | .logcopy h g => logcopy s h g
